@@ -267,3 +267,65 @@ func (c *Ctx) checkOuterWritesAreMisses(r *Report, rule string) {
 		r.Undecided("%s: only %d writes through a Reference found (update and SetNoChecks expected)", rule, n)
 	}
 }
+
+// checkSaveIsGlobal: rule C14.R9.
+//
+// What is saved is the global scope whatever frame save() is called from: State.SaveGlobals hands over the
+// current environment (a function's frame when save() runs inside one), so in Environment.SaveGlobals (and the
+// helpers of its package it hands the environment to) every read of an environment's store is on an
+// environment known to be the outermost one: dominated by the `outer == nil` edge of a test on that very
+// value (the exit of the walk `for e.outer != nil { e = e.outer }`).
+func (c *Ctx) checkSaveIsGlobal(r *Report, rule string) {
+	envT := c.TypeNamed("object", "Environment")
+	storeIdx, outerIdx := fieldIndex(envT, "store"), fieldIndex(envT, "outer")
+	entry := c.SSAFn(c.Fn("object", "Environment.SaveGlobals"))
+	if storeIdx < 0 || outerIdx < 0 || entry == nil {
+		r.Undecided("%s: Environment.store / outer / SaveGlobals not found", rule)
+		return
+	}
+	n := 0
+	for _, fn := range c.localHelpers(entry, 2) {
+		k := 0
+		eachInstr(fn, func(in ssa.Instruction) {
+			fa, ok := in.(*ssa.FieldAddr)
+			if !ok || fa.Field != storeIdx || namedStruct(fa.X.Type()) == nil || namedStruct(fa.X.Type()).Obj() != envT.Obj() {
+				return
+			}
+			n++
+			k++
+			root := false
+			for _, cc := range controlling(fa.Block()) {
+				bin, ok := cc.Cond.(*ssa.BinOp)
+				if !ok || (bin.Op != token.EQL && bin.Op != token.NEQ) {
+					continue
+				}
+				side := bin.X
+				if isNilConst(bin.X) {
+					side = bin.Y
+				} else if !isNilConst(bin.Y) {
+					continue
+				}
+				ld, ok := side.(*ssa.UnOp)
+				if !ok {
+					continue
+				}
+				ofa, ok := ld.X.(*ssa.FieldAddr)
+				if !ok || ofa.Field != outerIdx || ofa.X != fa.X {
+					continue
+				}
+				if (bin.Op == token.EQL && cc.Edge == 0) || (bin.Op == token.NEQ && cc.Edge == 1) {
+					root = true
+				}
+			}
+			desc := "the store that is saved is the outermost environment's"
+			if k > 1 {
+				desc += " #" + itoa(k)
+			}
+			r.Check(root, rule, ssaFuncName(fn), desc, c.Pos(fa.Pos()),
+				"SaveGlobals reads the store of an environment that is not known to be the outermost one (no dominating `outer == nil` on that value): save() called inside a function writes that function's frame, so the file has none of the globals and loading it loses the session's state")
+		})
+	}
+	if n == 0 {
+		r.Undecided("%s: no read of Environment.store under SaveGlobals", rule)
+	}
+}
